@@ -52,6 +52,11 @@ def lint(project, source, filename=None, debug=False):
             sname = snames[name.id]
             # print('@@', name.id, sname)
         except KeyError:
+            if name.id in scope._global_names:
+                # a module variable created by a function through a global
+                # declaration: defined once that function has run
+                use_name(scope._global_names[name.id])
+                continue
             result.append(('E02', 'Undefined name: {}'.format(name.id),
                            location[0], location[1], flow))
         else:
